@@ -13,18 +13,18 @@ import (
 
 // Look is what every by-hash lookup API answered for one hash.
 type Look struct {
-	HH      int    // HashHeight
-	CHH     int    // CheckHeader height
-	CHL     bool   // CheckHeader longest flag
-	CHE     string // CheckHeader error class
-	GHH     int
-	GHL     bool
-	GHE     string
-	GHHash  Hash // hash of the header GetHeader returned
-	PHH     int  // PreviousHash height
-	PHHash  Hash
-	PHNil   bool
-	Panic   string
+	HH     int    // HashHeight
+	CHH    int    // CheckHeader height
+	CHL    bool   // CheckHeader longest flag
+	CHE    string // CheckHeader error class
+	GHH    int
+	GHL    bool
+	GHE    string
+	GHHash Hash // hash of the header GetHeader returned
+	PHH    int  // PreviousHash height
+	PHHash Hash
+	PHNil  bool
+	Panic  string
 }
 
 // Snap is the observable state of a repository through every exported read API.
